@@ -1915,6 +1915,9 @@ class _AnsiSettingPoint:
                     setting = AnsiSetting(setting)
                 settings_out.append(setting)
             elif isinstance(setting, str):
+                if isinstance(setting, AnsiStr):
+                    # An AnsiStr stands for its text (its raw str value is its rendering and it overrides ==)
+                    setting = setting.base_str
                 settings_out.extend(__class__._scrub_ansi_format_string(setting, make_unique))
             elif isinstance(setting, int):
                 settings_out.append(__class__._scrub_ansi_format_int(setting))
